@@ -146,26 +146,31 @@ def judge(rec, rnd, tmp, k):
         if len(kinds) == 1 and (t[2], t[3]) != next(iter(kinds)):
             rec.violation('report-category-differs', f'merchant {t[1]!r}: report {t[2:4]}, expected {kinds}', case)
             return
-    # ---- JSON merchants totals
-    name_of = {}
+    # ---- JSON merchants totals (grouping taken from the report's own merchant names; rows that share source, description, amount and month but were
+    #      given different merchants - same charge on two days, a weekday/day rule - cannot be told apart by that key and are left to the checks above)
+    name_sets = defaultdict(set)
     for t in htx:
-        name_of[(t[0], t[4], t[5], t[6])] = t[1]
-    groups = defaultdict(list)
-    for e in exp:
-        groups[name_of[(e['source'], e['desc'], round(e['amount'], 6), e['month'])]].append(e)
-    jm = {m['name']: m for m in js['merchants']}
-    if set(jm) != set(groups):
-        rec.violation('json-merchant-set-differs', f'{sorted(jm)} vs {sorted(groups)}', case)
-        return
-    for n, es in groups.items():
-        tot = sum(e['amount'] for e in es)
-        if not math.isclose(jm[n]['total'], round(tot, 2), abs_tol=0.011) or jm[n]['count'] != len(es):
-            rec.violation('json-merchant-total-differs', f'{n}: JSON {jm[n]["total"]}/{jm[n]["count"]} vs expected {tot}/{len(es)}', case)
+        name_sets[(t[0], t[4], t[5], t[6])].add(t[1])
+    if any(len(v) > 1 for v in name_sets.values()):
+        rec.count('json_merchant_grouping_ambiguous_not_judged')
+    else:
+        name_of = {k: next(iter(v)) for k, v in name_sets.items()}
+        groups = defaultdict(list)
+        for e in exp:
+            groups[name_of[(e['source'], e['desc'], round(e['amount'], 6), e['month'])]].append(e)
+        jm = {m['name']: m for m in js['merchants']}
+        if set(jm) != set(groups):
+            rec.violation('json-merchant-set-differs', f'{sorted(jm)} vs {sorted(groups)}', case)
             return
-        rd = jm[n].get('raw_descriptions') or {}
-        if Counter(rd) != Counter(e['desc'] for e in es):
-            rec.violation('json-raw-descriptions-differ', f'{n}: {rd} vs {Counter(e["desc"] for e in es)}', case)
-            return
+        for n, es in groups.items():
+            tot = sum(e['amount'] for e in es)
+            if not math.isclose(jm[n]['total'], round(tot, 2), abs_tol=0.011) or jm[n]['count'] != len(es):
+                rec.violation('json-merchant-total-differs', f'{n}: JSON {jm[n]["total"]}/{jm[n]["count"]} vs expected {tot}/{len(es)}', case)
+                return
+            rd = jm[n].get('raw_descriptions') or {}
+            if Counter(rd) != Counter(e['desc'] for e in es):
+                rec.violation('json-raw-descriptions-differ', f'{n}: {rd} vs {Counter(e["desc"] for e in es)}', case)
+                return
     # ---- totals (exact money model over the expected transactions)
     lst = [{'amount': e['raw_amount'], 'tags': list(e['tags']), 'merchant': 'm', 'category': 'c', 'subcategory': 's', 'date': e['date']} for e in exp]
     bk = c06.model(lst)[0]
